@@ -23,6 +23,7 @@ def run_codec(prop, mode, tier, describe, signature, rule, assumptions, extra_ca
         tv = vlib.validate_trace("Trace_Codec", trace, heap="8g")
         verdict = vlib.Verdict(prop)
         events = vlib.read_ndjson(trace)
+        notes, note_samples = {}, []
         for f in tv.fails:
             if any(p.startswith("TOOL.") for p in f["props"]):
                 raise vlib.ToolError("Trace_Codec: %s" % json.dumps(f))
@@ -30,12 +31,26 @@ def run_codec(prop, mode, tier, describe, signature, rule, assumptions, extra_ca
             mine = sorted(p for p in f["props"] if p.startswith(prop + "."))
             if mine:
                 verdict.reject(signature(mine, e), describe(mine, e))
+            # E.*: behaviour the properties leave free, pinned by Endpoints.tla; reported in the evidence, never a violation
+            for p in f["props"]:
+                if p.startswith("E."):
+                    notes[p] = notes.get(p, 0) + 1
+                    if len(note_samples) < 5:
+                        note_samples.append({"clause": p, "request": {k: e["req"][k] for k in ("method", "pcls", "pvar", "ctype")}, "observed": e["obs"]})
         ev["coverage"] = {
             "states": gen.distinct, "transitions": gen.generated,
             "traces_validated_against_impl": tv.done[0], "spec_cases_replayed": len(gen.cases),
             "samples": [describe([], events[0]), describe([], events[len(events) // 2])],
             "rule": rule,
         }
+        n_endpoint = sum(1 for e in events if e.get("op") == "endpoint")
+        if n_endpoint:
+            ev["coverage"]["endpoint_requests_validated"] = n_endpoint
+            ev["coverage"]["behaviour_notes"] = notes
+            ev["coverage"]["behaviour_note_samples"] = note_samples
+            vlib.log("[endpoints] %d requests to the dynamic endpoints validated against Endpoints.tla, %d deviation note(s) %s" % (n_endpoint, sum(notes.values()), json.dumps(notes)))
+            for sm in note_samples:
+                vlib.log("[endpoints] note " + json.dumps(sm)[:600])
         ev["assumptions"] = assumptions
         ev["wall_s"] = round(time.time() - t0, 1)
         return verdict.finish(ev)
